@@ -2,7 +2,7 @@
    Every theorem here is about arbitrary text / arbitrary item lists: no validity assumption. *)
 From hls Require Import Base Float Lex Kinds Types Tags Line Keys Media Master.
 From hls.Generated Require Import Tables.
-From hls.Proofs Require Import Build Parse C12 AttrOrder Lexical TagTextDateRange AttrTables AttrOrder2 StepOrder.
+From hls.Proofs Require Import Build Parse C12 AttrOrder Lexical TagTextDateRange AttrTables AttrOrder2 StepOrder Restyle Restyle2.
 From Coq Require Import Permutation.
 Open Scope N_scope.
 
@@ -196,6 +196,174 @@ Check C12_tag_order : forall l1 l2, Permutation l1 l2 -> NoDup (map kind_of l1) 
   forall s rest, run_lines s (map tline l1 ++ rest) = run_lines s (map tline l2 ++ rest).
 Print Assumptions C12_tag_order.
 
+
+(* ONE theorem over whole playlists: two texts whose cleaned lines (C12_crlf, C12_blank_lines, C12_line_padding say when these
+   are even equal) are related by the closure of the elementary presentation changes parse to the same result — same
+   value, or both rejected.  `restyle_media` / `restyle_master` = reflexive-symmetric-transitive closure of `lstep_media` /
+   `lstep`; the rules are restated in C12_restyle_rules so that they cannot be weakened silently. *)
+Theorem C12_restyle_media : forall t t' r r' b0, tag t pfx_ExtM3u = Ok r -> tag t' pfx_ExtM3u = Ok r' ->
+  restyle_media (clean_lines r) (clean_lines r') -> parse_media_with b0 t = parse_media_with b0 t'.
+Proof. exact restyle_parse_media. Qed.
+Check C12_restyle_media : forall t t' r r' b0, tag t pfx_ExtM3u = Ok r -> tag t' pfx_ExtM3u = Ok r' ->
+  restyle_media (clean_lines r) (clean_lines r') -> parse_media_with b0 t = parse_media_with b0 t'.
+Print Assumptions C12_restyle_media.
+
+Theorem C12_restyle_master : forall t t' r r', tag t pfx_ExtM3u = Ok r -> tag t' pfx_ExtM3u = Ok r' ->
+  restyle_master (clean_lines r) (clean_lines r') -> parse_master t = parse_master t'.
+Proof. exact restyle_parse_master. Qed.
+Check C12_restyle_master : forall t t' r r', tag t pfx_ExtM3u = Ok r -> tag t' pfx_ExtM3u = Ok r' ->
+  restyle_master (clean_lines r) (clean_lines r') -> parse_master t = parse_master t'.
+Print Assumptions C12_restyle_master.
+
+(* the elementary changes: a comment or redundant EXT-X-VERSION line inserted anywhere (not between EXT-X-STREAM-INF and
+   its URI: `closed a`), a line replaced by another spelling with the same item, a STREAM-INF line respelled, and (media
+   playlists) a block of free tags of pairwise different kinds permuted *)
+Theorem C12_restyle_rules :
+  (forall a c b, closed a = true -> single c = true ->
+     (item1 c = Ok LComment \/ exists v, item1 c = Ok (LTag (TVersion v))) -> lstep (a ++ b) (a ++ c :: b))
+  /\ (forall a l l' b, closed a = true -> single l = true -> single l' = true -> item1 l = item1 l' ->
+     lstep (a ++ l :: b) (a ++ l' :: b))
+  /\ (forall a l l' u b, closed a = true -> single l = false -> single l' = false ->
+     parse_streaminf l u = parse_streaminf l' u -> lstep (a ++ l :: u :: b) (a ++ l' :: u :: b))
+  /\ (forall x y, lstep x y -> lstep_media x y)
+  /\ (forall a blk blk' ts ts' b, closed a = true -> forallb single blk = true -> forallb single blk' = true ->
+     map item1 blk = map tline ts -> map item1 blk' = map tline ts' -> Permutation ts ts' ->
+     NoDup (map kind_of ts) -> forallb free_tag ts = true -> lstep_media (a ++ blk ++ b) (a ++ blk' ++ b)).
+Proof. repeat split; intros; [eapply ls_insert | eapply ls_replace | eapply ls_replace_pair | eapply lm_common | eapply lm_block]; eassumption. Qed.
+Check C12_restyle_rules :
+  (forall a c b, closed a = true -> single c = true ->
+     (item1 c = Ok LComment \/ exists v, item1 c = Ok (LTag (TVersion v))) -> lstep (a ++ b) (a ++ c :: b))
+  /\ (forall a l l' b, closed a = true -> single l = true -> single l' = true -> item1 l = item1 l' ->
+     lstep (a ++ l :: b) (a ++ l' :: b))
+  /\ (forall a l l' u b, closed a = true -> single l = false -> single l' = false ->
+     parse_streaminf l u = parse_streaminf l' u -> lstep (a ++ l :: u :: b) (a ++ l' :: u :: b))
+  /\ (forall x y, lstep x y -> lstep_media x y)
+  /\ (forall a blk blk' ts ts' b, closed a = true -> forallb single blk = true -> forallb single blk' = true ->
+     map item1 blk = map tline ts -> map item1 blk' = map tline ts' -> Permutation ts ts' ->
+     NoDup (map kind_of ts) -> forallb free_tag ts = true -> lstep_media (a ++ blk ++ b) (a ++ blk' ++ b)).
+Print Assumptions C12_restyle_rules.
+
+(* instances of the "other spelling" rule: for EXT-X-MAP, EXT-X-START, EXT-X-MEDIA, EXT-X-SESSION-DATA, EXT-X-DATERANGE, EXT-X-KEY
+   (METHOD=NONE included) and EXT-X-SESSION-KEY, any two spellings of the same canonical attribute list — attributes in any
+   order, any white space around names, `=`, values and commas, any additional attributes unknown to the parser (names from
+   the regenerated attribute tables) — are related *)
+Theorem C12_restyle_attribute_lines :
+  (forall a b e e' canon, closed a = true -> styled "ExtXMap" e canon -> styled "ExtXMap" e' canon ->
+     trim (pfx_ExtXMap ++ render_attrs e) = pfx_ExtXMap ++ render_attrs e -> trim (pfx_ExtXMap ++ render_attrs e') = pfx_ExtXMap ++ render_attrs e' ->
+     lstep (a ++ (pfx_ExtXMap ++ render_attrs e) :: b) (a ++ (pfx_ExtXMap ++ render_attrs e') :: b))
+  /\ (forall a b e e' canon, closed a = true -> styled "ExtXStart" e canon -> styled "ExtXStart" e' canon ->
+     trim (pfx_ExtXStart ++ render_attrs e) = pfx_ExtXStart ++ render_attrs e -> trim (pfx_ExtXStart ++ render_attrs e') = pfx_ExtXStart ++ render_attrs e' ->
+     lstep (a ++ (pfx_ExtXStart ++ render_attrs e) :: b) (a ++ (pfx_ExtXStart ++ render_attrs e') :: b))
+  /\ (forall a b e e' canon, closed a = true -> styled "ExtXMedia" e canon -> styled "ExtXMedia" e' canon ->
+     trim (pfx_ExtXMedia ++ render_attrs e) = pfx_ExtXMedia ++ render_attrs e -> trim (pfx_ExtXMedia ++ render_attrs e') = pfx_ExtXMedia ++ render_attrs e' ->
+     lstep (a ++ (pfx_ExtXMedia ++ render_attrs e) :: b) (a ++ (pfx_ExtXMedia ++ render_attrs e') :: b))
+  /\ (forall a b e e' canon, closed a = true -> styled "ExtXSessionData" e canon -> styled "ExtXSessionData" e' canon ->
+     trim (pfx_ExtXSessionData ++ render_attrs e) = pfx_ExtXSessionData ++ render_attrs e -> trim (pfx_ExtXSessionData ++ render_attrs e') = pfx_ExtXSessionData ++ render_attrs e' ->
+     lstep (a ++ (pfx_ExtXSessionData ++ render_attrs e) :: b) (a ++ (pfx_ExtXSessionData ++ render_attrs e') :: b))
+  /\ (forall a b e e' canon, closed a = true -> styled_dr e canon -> styled_dr e' canon ->
+     trim (pfx_ExtXDateRange ++ render_attrs e) = pfx_ExtXDateRange ++ render_attrs e -> trim (pfx_ExtXDateRange ++ render_attrs e') = pfx_ExtXDateRange ++ render_attrs e' ->
+     lstep (a ++ (pfx_ExtXDateRange ++ render_attrs e) :: b) (a ++ (pfx_ExtXDateRange ++ render_attrs e') :: b))
+  /\ (forall a b e e' canon, closed a = true -> styled "DecryptionKey" e canon -> styled "DecryptionKey" e' canon ->
+     trim (pfx_ExtXKey ++ render_attrs e) = pfx_ExtXKey ++ render_attrs e -> trim (pfx_ExtXKey ++ render_attrs e') = pfx_ExtXKey ++ render_attrs e' ->
+     lstep (a ++ (pfx_ExtXKey ++ render_attrs e) :: b) (a ++ (pfx_ExtXKey ++ render_attrs e') :: b))
+  /\ (forall a b e e' canon, closed a = true -> styled "DecryptionKey" e canon -> styled "DecryptionKey" e' canon ->
+     trim (pfx_ExtXSessionKey ++ render_attrs e) = pfx_ExtXSessionKey ++ render_attrs e -> trim (pfx_ExtXSessionKey ++ render_attrs e') = pfx_ExtXSessionKey ++ render_attrs e' ->
+     lstep (a ++ (pfx_ExtXSessionKey ++ render_attrs e) :: b) (a ++ (pfx_ExtXSessionKey ++ render_attrs e') :: b)).
+Proof.
+  repeat split; intros a b e e' canon Ha; [apply restyle_xmap | apply restyle_start | apply restyle_xmedia | apply restyle_session_data
+    | apply restyle_daterange | apply restyle_xkey | apply restyle_session_key]; exact Ha.
+Qed.
+Check C12_restyle_attribute_lines :
+  (forall a b e e' canon, closed a = true -> styled "ExtXMap" e canon -> styled "ExtXMap" e' canon ->
+     trim (pfx_ExtXMap ++ render_attrs e) = pfx_ExtXMap ++ render_attrs e -> trim (pfx_ExtXMap ++ render_attrs e') = pfx_ExtXMap ++ render_attrs e' ->
+     lstep (a ++ (pfx_ExtXMap ++ render_attrs e) :: b) (a ++ (pfx_ExtXMap ++ render_attrs e') :: b))
+  /\ (forall a b e e' canon, closed a = true -> styled "ExtXStart" e canon -> styled "ExtXStart" e' canon ->
+     trim (pfx_ExtXStart ++ render_attrs e) = pfx_ExtXStart ++ render_attrs e -> trim (pfx_ExtXStart ++ render_attrs e') = pfx_ExtXStart ++ render_attrs e' ->
+     lstep (a ++ (pfx_ExtXStart ++ render_attrs e) :: b) (a ++ (pfx_ExtXStart ++ render_attrs e') :: b))
+  /\ (forall a b e e' canon, closed a = true -> styled "ExtXMedia" e canon -> styled "ExtXMedia" e' canon ->
+     trim (pfx_ExtXMedia ++ render_attrs e) = pfx_ExtXMedia ++ render_attrs e -> trim (pfx_ExtXMedia ++ render_attrs e') = pfx_ExtXMedia ++ render_attrs e' ->
+     lstep (a ++ (pfx_ExtXMedia ++ render_attrs e) :: b) (a ++ (pfx_ExtXMedia ++ render_attrs e') :: b))
+  /\ (forall a b e e' canon, closed a = true -> styled "ExtXSessionData" e canon -> styled "ExtXSessionData" e' canon ->
+     trim (pfx_ExtXSessionData ++ render_attrs e) = pfx_ExtXSessionData ++ render_attrs e -> trim (pfx_ExtXSessionData ++ render_attrs e') = pfx_ExtXSessionData ++ render_attrs e' ->
+     lstep (a ++ (pfx_ExtXSessionData ++ render_attrs e) :: b) (a ++ (pfx_ExtXSessionData ++ render_attrs e') :: b))
+  /\ (forall a b e e' canon, closed a = true -> styled_dr e canon -> styled_dr e' canon ->
+     trim (pfx_ExtXDateRange ++ render_attrs e) = pfx_ExtXDateRange ++ render_attrs e -> trim (pfx_ExtXDateRange ++ render_attrs e') = pfx_ExtXDateRange ++ render_attrs e' ->
+     lstep (a ++ (pfx_ExtXDateRange ++ render_attrs e) :: b) (a ++ (pfx_ExtXDateRange ++ render_attrs e') :: b))
+  /\ (forall a b e e' canon, closed a = true -> styled "DecryptionKey" e canon -> styled "DecryptionKey" e' canon ->
+     trim (pfx_ExtXKey ++ render_attrs e) = pfx_ExtXKey ++ render_attrs e -> trim (pfx_ExtXKey ++ render_attrs e') = pfx_ExtXKey ++ render_attrs e' ->
+     lstep (a ++ (pfx_ExtXKey ++ render_attrs e) :: b) (a ++ (pfx_ExtXKey ++ render_attrs e') :: b))
+  /\ (forall a b e e' canon, closed a = true -> styled "DecryptionKey" e canon -> styled "DecryptionKey" e' canon ->
+     trim (pfx_ExtXSessionKey ++ render_attrs e) = pfx_ExtXSessionKey ++ render_attrs e -> trim (pfx_ExtXSessionKey ++ render_attrs e') = pfx_ExtXSessionKey ++ render_attrs e' ->
+     lstep (a ++ (pfx_ExtXSessionKey ++ render_attrs e) :: b) (a ++ (pfx_ExtXSessionKey ++ render_attrs e') :: b)).
+Print Assumptions C12_restyle_attribute_lines.
+
+(* ... and for the two variant-stream tags, whose attribute list is read by two parsers (the tag's own attributes and the
+   shared stream data; for EXT-X-I-FRAME-STREAM-INF the URI attribute and the stream data) *)
+Theorem C12_restyle_variant_lines :
+  (forall a b e e' csi csd u, closed a = true -> styled2 e csi csd -> styled2 e' csi csd ->
+     trim (pfx_VariantStream_EXTXSTREAMINF ++ render_attrs e) = pfx_VariantStream_EXTXSTREAMINF ++ render_attrs e ->
+     trim (pfx_VariantStream_EXTXSTREAMINF ++ render_attrs e') = pfx_VariantStream_EXTXSTREAMINF ++ render_attrs e' ->
+     lstep (a ++ (pfx_VariantStream_EXTXSTREAMINF ++ render_attrs e) :: u :: b) (a ++ (pfx_VariantStream_EXTXSTREAMINF ++ render_attrs e') :: u :: b))
+  /\ (forall a b e e' uri csd, closed a = true -> styled_iframe e uri csd -> styled_iframe e' uri csd ->
+     trim (pfx_VariantStream_EXTXIFRAME ++ render_attrs e) = pfx_VariantStream_EXTXIFRAME ++ render_attrs e ->
+     trim (pfx_VariantStream_EXTXIFRAME ++ render_attrs e') = pfx_VariantStream_EXTXIFRAME ++ render_attrs e' ->
+     lstep (a ++ (pfx_VariantStream_EXTXIFRAME ++ render_attrs e) :: b) (a ++ (pfx_VariantStream_EXTXIFRAME ++ render_attrs e') :: b)).
+Proof. split; intros; [eapply restyle_streaminf | eapply restyle_iframe]; eassumption. Qed.
+Check C12_restyle_variant_lines :
+  (forall a b e e' csi csd u, closed a = true -> styled2 e csi csd -> styled2 e' csi csd ->
+     trim (pfx_VariantStream_EXTXSTREAMINF ++ render_attrs e) = pfx_VariantStream_EXTXSTREAMINF ++ render_attrs e ->
+     trim (pfx_VariantStream_EXTXSTREAMINF ++ render_attrs e') = pfx_VariantStream_EXTXSTREAMINF ++ render_attrs e' ->
+     lstep (a ++ (pfx_VariantStream_EXTXSTREAMINF ++ render_attrs e) :: u :: b) (a ++ (pfx_VariantStream_EXTXSTREAMINF ++ render_attrs e') :: u :: b))
+  /\ (forall a b e e' uri csd, closed a = true -> styled_iframe e uri csd -> styled_iframe e' uri csd ->
+     trim (pfx_VariantStream_EXTXIFRAME ++ render_attrs e) = pfx_VariantStream_EXTXIFRAME ++ render_attrs e ->
+     trim (pfx_VariantStream_EXTXIFRAME ++ render_attrs e') = pfx_VariantStream_EXTXIFRAME ++ render_attrs e' ->
+     lstep (a ++ (pfx_VariantStream_EXTXIFRAME ++ render_attrs e) :: b) (a ++ (pfx_VariantStream_EXTXIFRAME ++ render_attrs e') :: b)).
+Print Assumptions C12_restyle_variant_lines.
+
+(* non-vacuity of the restyle rules: a padded, permuted EXT-X-MAP line with an unknown attribute is a spelling of the
+   canonical list, the rule applies, and the theorem's conclusion is confirmed by evaluation *)
+Definition ex_entries1 : list entry :=
+  [ {| e_p1 := [32]; e_k := lit "FOO"; e_p2 := []; e_p3 := [9]; e_v := lit "1"; e_p4 := [32] |};
+    {| e_p1 := [32]; e_k := lit "URI"; e_p2 := [32]; e_p3 := [32]; e_v := lit """a,b=c"""; e_p4 := [] |} ].
+Definition ex_entries2 : list entry :=
+  [ {| e_p1 := []; e_k := lit "URI"; e_p2 := []; e_p3 := []; e_v := lit """a,b=c"""; e_p4 := [] |} ].
+Definition ex_canon : list (str * str) := [(lit "URI", lit """a,b=c""")].
+Example C12_restyle_example :
+  styled "ExtXMap" ex_entries1 ex_canon /\ styled "ExtXMap" ex_entries2 ex_canon
+  /\ lstep ([lit "#EXT-X-TARGETDURATION:5"] ++ (pfx_ExtXMap ++ render_attrs ex_entries1) :: [lit "#EXTINF:5,"; lit "a.ts"])
+           ([lit "#EXT-X-TARGETDURATION:5"] ++ (pfx_ExtXMap ++ render_attrs ex_entries2) :: [lit "#EXTINF:5,"; lit "a.ts"])
+  /\ parse_media (lit "#EXTM3U
+#EXT-X-TARGETDURATION:5
+#EXT-X-MAP: FOO=	1 , URI = ""a,b=c""
+#EXTINF:5,
+a.ts
+") = parse_media (lit "#EXTM3U
+#EXT-X-TARGETDURATION:5
+#EXT-X-MAP:URI=""a,b=c""
+#EXTINF:5,
+a.ts
+").
+Proof.
+  assert (S1 : styled "ExtXMap" ex_entries1 ex_canon).
+  { split.
+    - repeat constructor; vm_compute; try reflexivity; try discriminate.
+    - exists [(lit "FOO", lit "1")]. repeat split.
+      + apply perm_swap.
+      + cbn [map app fst ex_canon]. constructor; [intros [H|[]]; discriminate H|]. constructor; [intros []|constructor].
+      + intros p [<- | []]. vm_compute. reflexivity. }
+  assert (S2 : styled "ExtXMap" ex_entries2 ex_canon).
+  { split.
+    - repeat constructor; vm_compute; try reflexivity; try discriminate.
+    - exists []. repeat split.
+      + apply Permutation_refl.
+      + cbn [map app fst ex_canon]. constructor; [intros []|constructor].
+      + intros p []. }
+  split; [exact S1|]. split; [exact S2|]. split.
+  - assert (Hc : closed [lit "#EXT-X-TARGETDURATION:5"] = true) by (vm_compute; reflexivity).
+    apply (restyle_xmap _ _ Hc _ _ ex_canon S1 S2); vm_compute; reflexivity.
+  - vm_compute. reflexivity.
+Qed.
+
 (* white space around attribute names and values is trimmed by the tokenizer (C01_tokenizer) *)
 
 Example C12_example :
@@ -212,3 +380,8 @@ a.ts
 a.ts
 ")).
 Proof. vm_compute. reflexivity. Qed.
+(* the METHOD=NONE key tag with white space and an attribute a client has to ignore (known finding D22, repaired) *)
+Example C12_example_none :
+  parse_xkey (lit "#EXT-X-KEY:METHOD=NONE") = Ok None /\ parse_xkey (lit "#EXT-X-KEY: FOO=1 , METHOD = NONE") = Ok None
+  /\ parse_xkey (lit "#EXT-X-KEY:METHOD=NONE,URI=""k""") = Err.
+Proof. vm_compute. repeat split; reflexivity. Qed.
